@@ -1,12 +1,18 @@
 # -*- coding: utf-8 -*-
 import codecs
 import sys
+import threading
 import warnings
 import re
 from contextlib import contextmanager
 
 from parso.normalizer import Normalizer, NormalizerConfig, Issue, Rule
 from parso.python.tokenize import _get_token_collection
+
+# warnings.catch_warnings() saves and restores the process-wide list of
+# filters and is therefore not thread-safe: two threads that list issues at
+# the same time could leave the 'ignore' filter installed for good.
+_catch_warnings_lock = threading.Lock()
 
 _BLOCK_STMTS = ('if_stmt', 'while_stmt', 'for_stmt', 'try_stmt', 'with_stmt')
 _STAR_EXPR_PARENTS = ('testlist_star_expr', 'testlist_comp', 'exprlist')
@@ -647,7 +653,7 @@ class _StringChecks(SyntaxRule):
                 func = codecs.unicode_escape_decode
 
             try:
-                with warnings.catch_warnings():
+                with _catch_warnings_lock, warnings.catch_warnings():
                     # The warnings from parsing strings are not relevant.
                     warnings.filterwarnings('ignore')
                     func(payload)
